@@ -917,6 +917,9 @@ func c08HeaderDiscipline(p *Prog, r *Report) {
 				allowed = append(allowed, Edge{ifi.Block(), k})
 			}
 			for _, ret := range Returns(fn) {
+				if len(ret.Results) == 0 || !typeIs(ret.Results[0].Type(), "net/url", "URL") {
+					continue
+				}
 				v := stripConv(ReturnOperand(ret, 0))
 				if ex, ok := v.(*ssa.Extract); ok && ex.Tuple == ssa.Value(call) {
 					continue
